@@ -376,7 +376,13 @@ class BinaryExpression(TypedExpression):
             return chained
 
         left_str = self.left.rebuild(indent=indent, inline=True)
-        right_str = self.right.rebuild(indent=indent, inline=True)
+        # A right operand on its own line is rendered by _resolve_right_operand
+        # below: rendering it here as well doubled the work per chain element.
+        right_str = (
+            ""
+            if self.right_gap_lines
+            else self.right.rebuild(indent=indent, inline=True)
+        )
 
         operator_newline = self.operator_gap_lines > 0
         operator_str = self.operator.rebuild(indent=indent)
